@@ -5,6 +5,7 @@ import os
 HERE = os.path.dirname(os.path.abspath(__file__))
 VERIF = os.path.dirname(HERE)
 meta = json.load(open(os.path.join(HERE, "manifest_meta.json")))
+meta["checks"] = {f[:-5]: json.load(open(os.path.join(HERE, "meta", f))) for f in sorted(os.listdir(os.path.join(HERE, "meta"))) if f.endswith(".json")}
 have = sorted(f[:-3].upper() for f in os.listdir(os.path.join(HERE, "props")) if f.startswith("c") and f.endswith(".py"))
 all_ids = [json.loads(l)["id"] for l in open(os.path.join(VERIF, "properties.jsonl"))]
 checks = []
@@ -27,7 +28,7 @@ na = [{"property_id": pid, "reason": meta["not_applicable"].get(pid, "no check r
       for pid in all_ids if pid not in [c["property_id"] for c in checks]]
 man = {
     "version": 1,
-    "setup_cmd": "cd /verif/coq && coq_makefile -f _CoqProject -o Makefile && timeout 3000 make -j16",
+    "setup_cmd": "cd /verif && bin/mkproject && cd coq && coq_makefile -f _CoqProject -o Makefile && timeout 3000 make -j16",
     "hooks": meta["hooks"],
     "engines": [{"name": "coq-proof+correspondence", "path": "/verif/coq, /verif/harness",
                  "serves_properties": [c["property_id"] for c in checks],
@@ -38,3 +39,12 @@ man = {
 }
 json.dump(man, open(os.path.join(VERIF, "MANIFEST.json"), "w"), indent=1)
 print("MANIFEST.json: %d checks, %d not_applicable" % (len(checks), len(na)))
+
+fdir = os.path.join(VERIF, "findings")
+allf = []
+for f in sorted(os.listdir(fdir)):
+    if f.endswith(".json"):
+        allf += json.load(open(os.path.join(fdir, f)))
+json.dump({"comment": "Genuine defects of py552/n0struct found by the checks (merged from findings/*.json by harness/mk_manifest.py at development time; never written by a check). status=known: recorded; the check prints KNOWN-FINDING and exits 0 while only inputs matching the entry's classifier fail. status=fixed: repaired by the named 'fix:' commit in /repo; suppresses nothing.",
+           "findings": allf}, open(os.path.join(VERIF, "known_findings.json"), "w"), indent=1)
+print("known_findings.json: %d entries" % len(allf))
